@@ -303,8 +303,11 @@ func VerifC08BlockedInterleave() {
 	w := newWorld(nil)
 	p := newPair(w, true)
 	blocked := vf.Choice("window-zero", 2) == 1
+	win := 0
 	if blocked {
-		vf.Assert(w.sw.WriteSettings(http2.Setting{ID: http2.SettingInitialWindowSize, Val: 0}) == nil, "harness-write-settings")
+		// the window that holds the 2-byte DATA frame back is exhausted (0) or merely too small (1)
+		win = vf.Choice("blocking-window", 2)
+		vf.Assert(w.sw.WriteSettings(http2.Setting{ID: http2.SettingInitialWindowSize, Val: uint32(win)}) == nil, "harness-write-settings")
 		vf.Assert(w.pumpServer() == nil, "relay-accepts-settings")
 	}
 	p.sendHeaders(1, 0, false, nil, vf.Choice("cuts", 2), 0)
@@ -338,7 +341,13 @@ func VerifC08BlockedInterleave() {
 		// frames without flow-control cost on a stream that has nothing queued
 		vf.Assert(len(p.recv[3]) == 1, "header-block-of-another-stream-not-held-back-by-a-zero-window")
 		vf.Assert(len(p.recv[1]) >= 1, "header-block-ahead-of-the-blocked-data-not-held-back")
-		vf.Assert(w.sw.WriteWindowUpdate(1, 10) == nil, "harness-write-window-update")
+		// the receiver opens the window with a WINDOW_UPDATE for the stream, or by raising
+		// SETTINGS_INITIAL_WINDOW_SIZE
+		if vf.Choice("released-by-settings", 2) == 1 {
+			vf.Assert(w.sw.WriteSettings(http2.Setting{ID: http2.SettingInitialWindowSize, Val: 10}) == nil, "harness-write-settings")
+		} else {
+			vf.Assert(w.sw.WriteWindowUpdate(1, 10) == nil, "harness-write-window-update")
+		}
 		vf.Assert(w.pumpServer() == nil, "relay-accepts-window-update")
 		p.collect()
 	}
